@@ -27,14 +27,6 @@ open ParseCB Lemmas.ParseCB Spec.Doc
 
 -- ---- FULL statements (not proved) ---------------------------------------------------------------------------------
 
-/-- every production returns with the depth it was entered with (0/1 when entered at 0), on results CIF_OK -/
-def C15_skip_depth_balanced_full : Prop :=
-  ∀ (p : Prog) (fuel : Nat) (s : St), 0 ≤ s.skip →
-    (∀ cont, (parseLoop p fuel cont s).1 = OK → Bal s.skip (parseLoop p fuel cont s).2.1.skip)
-    ∧ (∀ m cont isBlock code, (parseContainer p m fuel cont isBlock code s).1 = OK →
-        Bal s.skip (parseContainer p m fuel cont isBlock code s).2.1.skip)
-    ∧ (∀ m cif, s.skip = 0 → (parseCif p m cif fuel s).2.1.skip = 0)
-
 def C15_handlerEvents (l : List Ev) : List Ev := l.filter (fun e => match e with | .ws _ => false | _ => true)
 
 /-- with handlers that always continue, the callbacks are those the document owes, in document order, and the stored
@@ -61,35 +53,67 @@ def C15_positive_aborts_full : Prop :=
 
 -- ---- proved ------------------------------------------------------------------------------------------------------
 
-/-- **skip_depth bookkeeping** (partial: the value, item and packet-loop levels), for all token sequences, programs,
-    fuels and entry states -/
-theorem C15_skip_depth_balanced_partial (p : Prog) (fuel : Nat) (s : St) (h0 : 0 ≤ s.skip) :
-    -- values: counter and handler count untouched
+/-- **skip_depth bookkeeping**, for all token sequences, programs, fuels and entry states `s` with a non-negative counter:
+    every production returns (result CIF_OK) with the depth it was entered with — `Bal`: unchanged when entered inside a
+    skipped region, 0 or 1 (a handler asked to skip the following siblings) when entered at 0 — and never negative;
+    values never touch the counter nor call a handler; a whole parse entered at 0 ends at 0. -/
+theorem C15_skip_depth_balanced (p : Prog) (fuel : Nat) (s : St) (h0 : 0 ≤ s.skip) :
+    -- parse_value / parse_list / parse_table
     ((parseValue fuel s).2.2.skip = s.skip ∧ (parseValue fuel s).2.2.n = s.n)
     -- parse_item (a skipped item has no name)
     ∧ (∀ cont name, (s.skip > 0 → name = none) → Bal s.skip (parseItem p fuel cont name s).2.1.skip)
-    -- the packet loop, entered at a packet boundary
+    -- the packet loop of parse_loop_packets, entered at a packet boundary
     ∧ (∀ loopH names (k : PkSt), k.col = 0 → (packetsLoop p loopH names fuel s k).1 = OK →
         Bal s.skip (packetsLoop p loopH names fuel s k).2.1.skip)
-    -- never negative
-    ∧ (∀ cont name, (s.skip > 0 → name = none) → 0 ≤ (parseItem p fuel cont name s).2.1.skip)
-    ∧ (∀ loopH names (k : PkSt), k.col = 0 → (packetsLoop p loopH names fuel s k).1 = OK →
-        0 ≤ (packetsLoop p loopH names fuel s k).2.1.skip) := by
+    -- parse_loop
+    ∧ (∀ cont, (parseLoop p fuel cont s).1 = OK → Bal s.skip (parseLoop p fuel cont s).2.1.skip)
+    -- parse_container and its element loop
+    ∧ (∀ m cont isBlock code, (parseContainer p m fuel cont isBlock code s).1 = OK →
+        Bal s.skip (parseContainer p m fuel cont isBlock code s).2.1.skip)
+    ∧ (∀ m cont isBlock c, (elemsLoop p m fuel cont isBlock s c).1 = OK →
+        Bal s.skip (elemsLoop p m fuel cont isBlock s c).2.1.skip)
+    -- the block loop of parse_cif
+    ∧ (∀ m cif acc, (blocksLoop p m cif fuel s acc).1 = OK → Bal s.skip (blocksLoop p m cif fuel s acc).2.1.skip) := by
   refine ⟨(value_skip fuel).1 s, fun cont name hn => item_bal p fuel cont name s h0 hn, ?_,
-    fun cont name hn => Bal.nonneg h0 (item_bal p fuel cont name s h0 hn), ?_⟩
-  · intro loopH names k hk hok
-    exact packets_bal p loopH names s.skip h0 fuel s k (by unfold PInv; simp [hk, Bal.refl]) hok
-  · intro loopH names k hk hok
-    exact Bal.nonneg h0 (packets_bal p loopH names s.skip h0 fuel s k (by unfold PInv; simp [hk, Bal.refl]) hok)
+    fun cont hok => loop_bal p fuel cont s h0 hok,
+    fun m cont isBlock code hok => (container_bal p m fuel).1 cont isBlock code s h0 hok,
+    fun m cont isBlock c hok => (container_bal p m fuel).2 cont isBlock s c h0 hok,
+    fun m cif acc hok => blocks_bal p m cif fuel s acc h0 hok⟩
+  intro loopH names k hk hok
+  exact packets_bal p loopH names s.skip h0 fuel s k (by unfold PInv; simp [hk, Bal.refl]) hok
+
+/-- a result CIF_OK of any production leaves the counter non-negative -/
+theorem C15_skip_depth_nonneg (p : Prog) (fuel : Nat) (s : St) (h0 : 0 ≤ s.skip) :
+    (∀ cont name, (s.skip > 0 → name = none) → 0 ≤ (parseItem p fuel cont name s).2.1.skip)
+    ∧ (∀ cont, (parseLoop p fuel cont s).1 = OK → 0 ≤ (parseLoop p fuel cont s).2.1.skip)
+    ∧ (∀ m cont isBlock code, (parseContainer p m fuel cont isBlock code s).1 = OK →
+        0 ≤ (parseContainer p m fuel cont isBlock code s).2.1.skip) :=
+  ⟨fun cont name hn => Bal.nonneg h0 (item_bal p fuel cont name s h0 hn),
+   fun cont hok => Bal.nonneg h0 (loop_bal p fuel cont s h0 hok),
+   fun m cont isBlock code hok => Bal.nonneg h0 ((container_bal p m fuel).1 cont isBlock code s h0 hok)⟩
+
+/-- a whole parse entered at depth 0 ends at depth 0 (when the block loop, if entered, ended with CIF_OK) -/
+theorem C15_skip_depth_cif (p : Prog) (m : Int) (cif : Bool) (fuel : Nat) (s : St) (hs : s.skip = 0)
+    (hok : (site p s (.cifStart cif) (some 1) (some 1)).1 = OK →
+      (blocksLoop p m cif fuel (site p s (.cifStart cif) (some 1) (some 1)).2 []).1 = OK) :
+    (parseCif p m cif fuel s).2.1.skip = 0 :=
+  cif_bal p m cif fuel s hs hok
 
 /-- cif_parse returns CIF_OK or a positive code, never a navigation code -/
 theorem C15_result_nonneg (p : Prog) (storing : Bool) (toks : List Tok) : 0 ≤ (parseCB p storing toks).2.1 := by
+  have hce : ∀ cif r s, 0 ≤ (cifEndStep p cif r s).1 := by
+    intro cif r s
+    unfold cifEndStep
+    split
+    · dsimp only; split <;> simp_all [OK] <;> omega
+    · dsimp only; split <;> simp_all [OK] <;> omega
   unfold parseCB parseCif
   dsimp only
   split
   · simp [OK]
-  · dsimp only
-    split <;> simp_all [OK] <;> omega
+  · split
+    · exact hce _ _ _
+    · exact hce _ _ _
 
 /-- **END / positive codes, locally**: at the packet_start, item (in a loop), packet_end, loop_end, block/frame start and
     block/frame end call sites, when nothing is being skipped, an answer `r` that is none of CONTINUE, SKIP_CURRENT,
@@ -105,15 +129,20 @@ theorem C15_positive_aborts_local (p : Prog) (s : St) (hs : s.skip = 0) (r : Int
     ∧ (∀ cont code c, p s.n (.blockEnd (if cont then some code else none)) = r → (containerEnd p cont true code OK s c).1 = r)
     ∧ (∀ cont code c, p s.n (.frameEnd (if cont then some code else none)) = r → (containerEnd p cont false code OK s c).1 = r) := by
   obtain ⟨h1, h2, h3⟩ := hr
+  have hne : r ≠ OK := h1
   refine ⟨?_, ?_, ?_, ?_, ?_, ?_, ?_, ?_⟩
-  · intro h; simp [pktStartStep, hs, call, h, h1, h2, h3]
-  · intro nm v h; simp [itemStep, hs, call, h, h2, h3]
-  · intro items h; simp [pktEndStep, hs, call, h, h1, h2, h3]
-  · intro hd h; simp [loopEndStep, hs, call, h, h2, h3]
-  · intro cont code h; simp [contStartStep, hs, call, h, h1, h2, h3]
-  · intro cont code h; simp [contStartStep, hs, call, h, h1, h2, h3]
-  · intro cont code c h; simp [containerEnd, dec, hs, call, h, h1, h2, h3]
-  · intro cont code c h; simp [containerEnd, dec, hs, call, h, h1, h2, h3]
+  · intro h; simp [pktStartStep, hs, site_stop p s _ _ _ r h h1 h2 h3]
+  · intro nm v h; simp [itemStep, hs, site_stop p s _ _ _ r h h1 h2 h3]
+  · intro items h; simp [pktEndStep, hs, site_stop p s _ _ _ r h h1 h2 h3]
+  · intro hd h; simp [loopEndStep, hs, site_stop p s _ _ _ r h h1 h2 h3]
+  · intro cont code h; simp [contStartStep, hs, site_stop p s _ _ _ r h h1 h2 h3]
+  · intro cont code h; simp [contStartStep, hs, site_stop p s _ _ _ r h h1 h2 h3]
+  · intro cont code c h
+    have hd : dec s = s := by simp [dec, hs]
+    simp [containerEnd, hd, hs, site_stop p s _ _ _ r h h1 h2 h3]
+  · intro cont code c h
+    have hd : dec s = s := by simp [dec, hs]
+    simp [containerEnd, hd, hs, site_stop p s _ _ _ r h h1 h2 h3]
 
 /-- handle_loop_start: an answer that is neither CONTINUE nor a SKIP directive (END or a positive code) skips the loop
     body and is the result of the step (`goto loop_body_end`) -/
@@ -121,7 +150,8 @@ theorem C15_loop_start_local (p : Prog) (cont : Bool) (names : List Str) (s : St
     (hr : r ≠ CONTINUE ∧ r ≠ SKIP_CURRENT ∧ r ≠ SKIP_SIBLINGS) (h : p s.n (.loopStart names) = r) :
     (loopStartStep p cont names s).2.2.2 = false ∧ (loopStartStep p cont names s).1 = r := by
   obtain ⟨h1, h2, h3⟩ := hr
-  simp [loopStartStep, hs, call, h, h1, h2, h3]
+  have hne : r ≠ OK := h1
+  simp [loopStartStep, hs, site_stop p s _ _ _ r h h1 h2 h3, hne]
 
 -- ---- the repaired defect F33, as a statement about the pinned variant ------------------------------------------------
 
@@ -134,9 +164,10 @@ theorem C15_cex_loop_start_pinned (p : Prog) (cont : Bool) (names : List Str) (s
   have h2 : r ≠ SKIP_CURRENT := by unfold SKIP_CURRENT; omega
   have h3 : r ≠ SKIP_SIBLINGS := by unfold SKIP_SIBLINGS; omega
   have h4 : r ≠ END := by unfold END; omega
+  have hne : r ≠ OK := h1
   constructor
-  · simp [loopStartStepPinned, hs, call, h, h1, h2, h3, h4]
-  · simp [loopStartStep, hs, call, h, h1, h2, h3]
+  · simp [loopStartStepPinned, hs, h, h4]
+  · simp [loopStartStep, hs, site_stop p s _ _ _ r h h1 h2 h3, hne]
 
 /-- `data_a loop_ _x 1` -/
 def C15_cexDoc : Doc := [{ code := (a!"a"), body := [.loop [(a!"_x")] [[.chr false (a!"1")]]] }]
